@@ -1,13 +1,37 @@
-"""C10 - Regenerated profile text preserves every token (grammar-level analysis)."""
+"""C10 - Regenerated profile text preserves every token (grammar-level analysis).
+
+R1/R2/R5 work on the compiled grammar.  R3 is about the Python side of the round trip and locates its subjects by role:
+
+* the *renderer* is the function of c2profile.py that calls `.reconstruct(...)` on a lark `Reconstructor(...)`
+  (`C2Profile.as_text` if it still does; temporaries, a module-level reconstructor, positional or keyword arguments do
+  not matter); the *reader* is the function that assigns a `.parse(...)` result to a `.tree` attribute
+  (`C2Profile.from_text`);
+* the *post-processor* is whatever callable is handed to that call as `postproc` (a nested function, a module-level
+  function, a method, a lambda, a `functools.partial`) - not a function of a particular name;
+* the token-preservation condition on the post-processor is decided by a symbolic execution of its body (`_Sym`) on
+  provenance-tagged token streams: every stream item is an opaque token (`{`, `}`, `;` have known text, all other items
+  are symbolic words), strings built from tokens keep their parts (`_Cat`), token text that went through a transforming
+  string operation is `_Alt`.  The emitted pieces are compared with the stream (`_audit`).  The rule looks at *what is
+  yielded*, not at how the loop is written: an early `continue`, an index loop, a `yield from`, a join, an extracted
+  helper, hoisted sub-expressions give the same verdict.  Streams: every statement/block skeleton of the language up
+  to a size bound, a few deeper nestings, and every short flat item stream that ends in a terminator.
+
+Undecided (never violated): no reconstruct call / no post-processor function can be located, or the post-processor uses
+a construct the executor does not model (`_Unsupported`).  Nothing of /repo is imported or executed: the executor walks
+the parsed AST with its own value domain.
+"""
 
 from __future__ import annotations
 
 import ast
 from collections import defaultdict
 
-from csverif.astutil import body_walk, dotted, fn_calls, kwarg, src, statements
+from csverif.astutil import assignments_to, dotted, kwarg, params, src, strip_cast
 from csverif.grammar import Grammar
-from csverif.q import origin
+from csverif.loader import Func
+from csverif.q import inline
+
+MOD = "c2profile"
 
 
 def run(ctx):
@@ -18,10 +42,13 @@ def run(ctx):
         "node on - (tree name = alias or origin, sequence of non-filtered symbols); every group must have exactly one "
         "sequence of filtered keyword tokens, otherwise the second keyword is printed as the first. Exhaustive over the "
         "finite rule set. Plus terminal kinds (kept regexp terminals are named, filtered terminals are plain strings) and a "
-        "token-preservation check of the whitespace post-processor and of as_text/from_text."
+        "token-preservation check of the whitespace post-processor (symbolic execution of the callable handed to "
+        "Reconstructor.reconstruct on provenance-tagged token streams: all statement/block skeletons up to a size bound, "
+        "all short delimiter/word streams, and a few deeper nestings) and of as_text/from_text."
     )
     rep.not_decided = ["text equality for all sentences of the language", "whitespace handling by the lexer"]
-    rep.trusted_base = ["lark 1.3.1 grammar loader and its TreeMatcher grouping rule (lark/tree_matcher.py: rules equal on (origin, kept expansion) are merged, first wins)", "CPython ast"]
+    rep.trusted_base = ["lark 1.3.1 grammar loader and its TreeMatcher grouping rule (lark/tree_matcher.py: rules equal on (origin, kept expansion) are merged, first wins)",
+                        "lark 1.3.1 Reconstructor.reconstruct(tree, postproc=None, insert_spaces=True): the item stream is passed through postproc and joined", "CPython ast"]
     rep.exhaustive = True
     g = Grammar(ctx.repo)
     rep.extra["lark_options"] = {k: v for k, v in g.options.items()}
@@ -84,83 +111,1724 @@ def r2(ctx, g: Grammar):
     ctx.ob("R2", "GRAM", "c2profile.lark", "%ignore", g.ignored == {"WS", "SH_COMMENT", "NEWLINE"}, f"ignored terminals {sorted(g.ignored)} (whitespace and comments only)")
 
 
-def r3(ctx):
-    f = ctx.repo.func("c2profile.C2Profile.as_text")
-    pp = ctx.repo.func("c2profile.C2Profile.as_text.postproc")
-    items = None
-    ys = [n for n in body_walk(pp.node) if isinstance(n, (ast.Yield, ast.YieldFrom))]
-    # the parameter being iterated
-    from csverif.astutil import params, assignments_to, const_eval, NotConst
-    p = params(pp.node)[0]
-    ok_all = True
-    details = []
-    loop = [s for s in statements(pp.node) if isinstance(s, ast.For) and dotted(s.iter) == p]
-    item = dotted(loop[0].target) if loop else None
-    acc = None
-    for st in statements(pp.node):
-        if isinstance(st, ast.Expr) and isinstance(st.value, ast.Call) and isinstance(st.value.func, ast.Attribute) and st.value.func.attr == "append" and st.value.args and dotted(st.value.args[0]) == item:
-            acc = dotted(st.value.func.value)
-    for y in ys:
-        v = y.value
-        good = False
-        if isinstance(v, ast.Constant) and isinstance(v.value, str) and v.value.strip() == "":
-            good = True
-        elif isinstance(v, ast.BinOp):
+# =====================================================================================================================
+# Symbolic execution of a (generator) function on provenance-tagged values.
+# Private to this module; candidate for hoisting into the engine (csverif.symexec).
+# =====================================================================================================================
+_DELIMS = ("{", "}", ";")
+
+
+class _Unsupported(Exception):
+    """The interpreted code uses a construct the symbolic executor does not model -> the rule is undecided."""
+
+
+class _Abort(Exception):
+    """The interpreted code itself raises on this input (IndexError, assert, raise ...)."""
+
+
+class _Tok:
+    """One item of the reconstructor's stream.  `text` is known for the three delimiters, None for a symbolic word (a
+    keyword, an option name or a STRING literal)."""
+
+    __slots__ = ("idx", "text")
+
+    def __init__(self, idx, text=None):
+        self.idx = idx
+        self.text = text
+
+    def __repr__(self):
+        return self.text if self.text is not None else f"w{self.idx}"
+
+
+class _Cat:
+    """A string that is a concatenation of constant text and whole tokens."""
+
+    __slots__ = ("parts",)
+
+    def __init__(self, parts):
+        self.parts = tuple(p for p in parts if not (isinstance(p, str) and p == ""))
+
+    def __repr__(self):
+        return "+".join(repr(p) for p in self.parts) or "''"
+
+
+class _Alt:
+    """Token text that went through an operation that may change it (replace, strip, slicing, formatting with a spec...)."""
+
+    __slots__ = ("how",)
+
+    def __init__(self, how):
+        self.how = how
+
+    def __repr__(self):
+        return f"<{self.how}>"
+
+
+class _It:
+    """An iterator value (the item stream, a running generator, enumerate/zip/reversed/genexp)."""
+
+    __slots__ = ("it",)
+
+    def __init__(self, it):
+        self.it = iter(it)
+
+
+class _Closure:
+    __slots__ = ("node", "func", "outer", "bound", "recv")
+
+    def __init__(self, node, func, outer=None, bound=None, recv=None):
+        self.node = node  # FunctionDef / Lambda
+        self.func = func  # Func giving module / class / static parent
+        self.outer = outer  # defining _Scope (None: resolve free names statically)
+        self.bound = dict(bound or {})  # functools.partial keywords / positional prefix under key None
+        self.recv = recv  # bound receiver (methods)
+
+
+class _Self:
+    """The instance a method is bound to: only class attributes with constant values can be read."""
+
+    __slots__ = ("cls_fq",)
+
+    def __init__(self, cls_fq):
+        self.cls_fq = cls_fq
+
+
+class _Builtin:
+    __slots__ = ("name",)
+
+    def __init__(self, name):
+        self.name = name
+
+
+class _Scope:
+    __slots__ = ("vars", "func", "outer", "nonlocals")
+
+    def __init__(self, func, outer=None):
+        self.vars = {}
+        self.func = func
+        self.outer = outer
+        self.nonlocals = ()
+
+
+_STRINGISH = (str, _Tok, _Cat, _Alt)
+_BUILTINS = {"len", "range", "enumerate", "zip", "list", "tuple", "set", "frozenset", "dict", "str", "int", "bool", "isinstance", "min", "max", "sum", "abs",
+             "any", "all", "reversed", "sorted", "iter", "next", "print", "repr", "bytes", "float", "object", "type", "divmod"}
+_STR_PREDICATES = {"startswith", "endswith", "isspace", "isalpha", "isalnum", "isdigit", "isidentifier", "islower", "isupper", "isnumeric", "isdecimal", "isprintable", "isascii"}
+_STR_PURE = _STR_PREDICATES | {"strip", "lstrip", "rstrip", "replace", "lower", "upper", "title", "capitalize", "split", "rsplit", "splitlines", "partition", "rpartition", "find",
+                               "rfind", "index", "rindex", "count", "ljust", "rjust", "center", "zfill", "expandtabs", "removeprefix", "removesuffix", "casefold", "swapcase", "format"}
+
+
+def _own_nodes(fn):
+    """All nodes of a function's own body in source order: nested defs / lambdas / classes are yielded but not entered
+    (csverif.astutil.body_walk enters a def that is a direct child of the body)."""
+    stack = list(reversed(fn.body)) if isinstance(getattr(fn, "body", None), list) else [fn.body]
+    while stack:
+        n = stack.pop()
+        yield n
+        if isinstance(n, (ast.FunctionDef, ast.AsyncFunctionDef, ast.ClassDef, ast.Lambda)):
+            continue
+        stack.extend(reversed(list(ast.iter_child_nodes(n))))
+
+
+_FN_INDEX = {}
+
+
+def _fn_index(fn):
+    """(own node ids, nested defs by name, is-generator) of a function node, cached."""
+    hit = _FN_INDEX.get(id(fn))
+    if hit is None or hit[0] is not fn:
+        nodes = list(_own_nodes(fn))
+        nested = {}
+        for n in nodes:
+            if isinstance(n, ast.FunctionDef):
+                nested[n.name] = n
+        gen = not isinstance(fn, ast.Lambda) and any(isinstance(n, (ast.Yield, ast.YieldFrom)) for n in nodes)
+        hit = (fn, {id(n) for n in nodes}, nested, gen, {})
+        _FN_INDEX[id(fn)] = hit
+    return hit
+
+
+def _own_assignments(fn, name):
+    idx = _fn_index(fn)
+    if name not in idx[4]:
+        idx[4][name] = [(st, v) for st, v in assignments_to(fn, name) if id(st) in idx[1]]
+    return idx[4][name]
+
+
+def _parts(v):
+    if isinstance(v, _Cat):
+        return v.parts
+    return (v,)
+
+
+def _is_generator(node) -> bool:
+    return _fn_index(node)[3]
+
+
+class _Sym:
+    """One symbolic run.  Data-dependent decisions on symbolic token text are taken from `oracle` (then default False) and
+    recorded in `trace`, so that the caller can enumerate the alternatives."""
+
+    MAX_STEPS = 20000
+    MAX_DEPTH = 12
+
+    def __init__(self, ctx, oracle=()):
+        self.ctx = ctx
+        self.oracle = list(oracle)
+        self.trace = []
+        self.memo = {}
+        self.tok_is = {}
+        self.steps = 0
+        self.depth = 0
+        self._static = {}
+
+    # ------------------------------------------------------------------------------------------------ decisions
+    def choose(self, key):
+        if key is not None and key in self.memo:
+            return self.memo[key]
+        if len(self.trace) >= 256:
+            raise _Unsupported("too many decisions that depend on the text of a token")
+        v = self.oracle[len(self.trace)] if len(self.trace) < len(self.oracle) else False
+        self.trace.append(v)
+        if key is not None:
+            self.memo[key] = v
+        return v
+
+    def tick(self):
+        self.steps += 1
+        if self.steps > self.MAX_STEPS:
+            raise _Unsupported("step budget exhausted (non-terminating loop?)")
+
+    # ------------------------------------------------------------------------------------------------ value helpers
+    @staticmethod
+    def _maybe_word(s: str) -> bool:
+        """Can a non-delimiter stream item (keyword, option name, STRING literal incl. quotes) have the text s?"""
+        if s == "" or s in _DELIMS or s.isspace():
+            return False
+        if s[0] == '"':
+            return len(s) >= 2 and s[-1] == '"'
+        return not any(c.isspace() or c in '{};"' for c in s)
+
+    def eq(self, a, b):
+        if isinstance(b, _Tok) and not isinstance(a, _Tok):
+            a, b = b, a
+        if isinstance(a, _Tok):
+            if isinstance(b, _Tok):
+                if a.idx == b.idx:
+                    return True
+                if a.text is not None and b.text is not None:
+                    return a.text == b.text
+                if a.text is not None or b.text is not None:
+                    return False
+                return self.choose(("eqtok", min(a.idx, b.idx), max(a.idx, b.idx)))
+            if isinstance(b, str):
+                if a.text is not None:
+                    return a.text == b
+                if not self._maybe_word(b):
+                    return False
+                if a.idx in self.tok_is:
+                    return self.tok_is[a.idx] == b
+                r = self.choose(("eq", a.idx, b))
+                if r:
+                    self.tok_is[a.idx] = b
+                return r
+            if isinstance(b, (_Cat, _Alt)):
+                return self.choose(None)
+            return False
+        if isinstance(a, (_Cat, _Alt)) or isinstance(b, (_Cat, _Alt)):
+            if isinstance(a, _STRINGISH) and isinstance(b, _STRINGISH):
+                return self.choose(None)
+            return False
+        if isinstance(a, (list, tuple)) and type(a) is type(b):
+            return len(a) == len(b) and all(self.eq(x, y) for x, y in zip(a, b))
+        if isinstance(a, (_It, _Closure, _Self, _Builtin)) or isinstance(b, (_It, _Closure, _Self, _Builtin)):
+            return a is b
+        try:
+            return a == b
+        except Exception as e:  # pragma: no cover
+            raise _Abort(str(e))
+
+    def contains(self, container, x):
+        if isinstance(container, (list, tuple, set, frozenset, dict, range)):
+            for e in list(container):
+                if self.eq(x, e):
+                    return True
+            return False
+        if isinstance(container, str):
+            if isinstance(x, str):
+                return x in container
+            if isinstance(x, _Tok):
+                if x.text is not None:
+                    return x.text in container
+                if x.idx in self.tok_is:
+                    return self.tok_is[x.idx] in container
+                if not any(c.isalnum() or c in '_-#"' for c in container):
+                    return False  # a word has at least one such character
+                return self.choose(("sub", x.idx, container))
+            if isinstance(x, (_Cat, _Alt)):
+                return self.choose(None)
+            raise _Abort("'in <string>' requires string as left operand")
+        if isinstance(container, (_Tok, _Cat, _Alt)):
+            if isinstance(container, _Tok) and container.text is not None and isinstance(x, str):
+                return x in container.text
+            if isinstance(x, str) and x == "":
+                return True
+            return self.choose(None)
+        if isinstance(container, _It):
+            raise _Unsupported("membership test on an iterator")
+        raise _Abort(f"argument of type {type(container).__name__} is not iterable")
+
+    def truth(self, v):
+        if isinstance(v, _Tok):
+            return True  # stream items are never empty
+        if isinstance(v, _Cat):
+            return bool(v.parts)
+        if isinstance(v, _Alt):
+            return self.choose(None)
+        if isinstance(v, (_It, _Closure, _Self, _Builtin)):
+            return True
+        return bool(v)
+
+    def cat(self, *vals):
+        parts = []
+        for v in vals:
+            if isinstance(v, _Alt):
+                return v
+            if not isinstance(v, _STRINGISH):
+                raise _Abort(f"can only concatenate str (not {type(v).__name__}) to str")
+            parts.extend(_parts(v))
+        if all(isinstance(p, str) for p in parts):
+            return "".join(parts)
+        merged = []
+        for p in parts:
+            if isinstance(p, str) and merged and isinstance(merged[-1], str):
+                merged[-1] += p
+            else:
+                merged.append(p)
+        return _Cat(merged)
+
+    def to_str(self, v):
+        """str(v) / '{}'.format(v) / f'{v}'."""
+        if isinstance(v, _STRINGISH):
+            return v
+        if isinstance(v, (int, float, bool)) or v is None:
+            return str(v)
+        return _Alt(f"str() of a {type(v).__name__}")
+
+    def iterate(self, v):
+        if isinstance(v, _It):
+            return v.it
+        if isinstance(v, (list, tuple, range, dict, set, frozenset)):
+            return iter(v)
+        if isinstance(v, str):
+            return iter(v)
+        if isinstance(v, _Tok) and v.text is not None:
+            return iter(v.text)
+        if isinstance(v, (_Tok, _Cat, _Alt)):
+            raise _Unsupported("iteration over the characters of a token")
+        if isinstance(v, (_Self, _Builtin)):
+            raise _Unsupported("iteration over an object the executor does not model")
+        raise _Abort(f"{type(v).__name__} object is not iterable")
+
+    # ------------------------------------------------------------------------------------------------ names
+    def lookup(self, name, scope):
+        s = scope
+        root = scope
+        while s is not None:
+            if name in s.vars:
+                return s.vars[name]
+            root = s
+            s = s.outer
+        f = root.func
+        # free variable of a nested function whose enclosing function is not being executed: a single definition there
+        p = f.parent if f is not None else None
+        while p is not None:
+            key = (p.fq, name)
+            if key in self._static:
+                return self._static[key]
+            q = f"{p.qualname}.{name}"
+            nested = _fn_index(p.node)[2].get(name)
+            if nested is not None:
+                fn = p.module.funcs.get(q)
+                if fn is None or fn.node is not nested:
+                    fn = Func(p.module, q, nested, p.cls, p)
+                v = _Closure(fn.node, fn, None)
+                self._static[key] = v
+                return v
+            defs = _own_assignments(p.node, name)
+            if len(defs) == 1 and defs[0][1] is not None:
+                v = self.eval(defs[0][1], _Scope(p))
+                self._static[key] = v
+                return v
+            if defs:
+                raise _Unsupported(f"free variable `{name}` has several definitions in the enclosing function")
+            if name in params(p.node):
+                if p.cls and params(p.node) and name == params(p.node)[0]:
+                    return _Self(f"{p.module.name}.{p.cls}")
+                raise _Unsupported(f"free variable `{name}` is a parameter of the enclosing function")
+            p = p.parent
+        if f is not None:
+            mod = f.module
+            key = (mod.name, name)
+            if key in self._static:
+                return self._static[key]
+            if name in mod.funcs:
+                fn = mod.funcs[name]
+                return _Closure(fn.node, fn, None)
+            if name in mod.consts:
+                v = self.eval(mod.consts[name], _Scope(Func(mod, "<module>", mod.tree, None, None)))
+                self._static[key] = v
+                return v
+            sym = self.ctx.rs.lookup(mod.name, name)
+            if sym is not None and sym.kind == "external":
+                return _Builtin("ext:" + (sym.name or name))
+            if sym is not None and sym.kind == "func":
+                fn = self.ctx.repo.modules[sym.module].funcs.get(sym.name)
+                if fn is not None:
+                    return _Closure(fn.node, fn, None)
+            if sym is not None and sym.kind == "partial":
+                raise _Unsupported(f"module-level functools.partial `{name}`")
+            if sym is not None and sym.kind == "class":
+                return _Builtin("cls:" + sym.fq)
+        if name in _BUILTINS:
+            return _Builtin(name)
+        if name in ("True", "False", "None"):  # pragma: no cover
+            return {"True": True, "False": False, "None": None}[name]
+        raise _Unsupported(f"name `{name}` cannot be resolved")
+
+    def store(self, target, v, scope):
+        if isinstance(target, ast.Name):
+            if target.id in scope.nonlocals:
+                o = scope.outer
+                while o is not None and target.id not in o.vars:
+                    o = o.outer
+                if o is None:
+                    raise _Unsupported(f"nonlocal `{target.id}` is bound in a function that is not being executed")
+                o.vars[target.id] = v
+                return
+            scope.vars[target.id] = v
+        elif isinstance(target, (ast.Tuple, ast.List)):
+            vals = list(self.iterate(v))
+            if any(isinstance(t, ast.Starred) for t in target.elts):
+                raise _Unsupported("starred assignment target")
+            if len(vals) != len(target.elts):
+                raise _Abort("unpacking arity")
+            for t, x in zip(target.elts, vals):
+                self.store(t, x, scope)
+        elif isinstance(target, ast.Subscript):
+            base = self.eval(target.value, scope)
+            if isinstance(base, list):
+                if isinstance(target.slice, ast.Slice):
+                    base[self._slice(target.slice, scope)] = list(self.iterate(v))
+                else:
+                    k = self.eval(target.slice, scope)
+                    if not isinstance(k, int):
+                        raise _Abort("list index")
+                    try:
+                        base[k] = v
+                    except IndexError as e:
+                        raise _Abort(str(e))
+            elif isinstance(base, dict):
+                k = self.eval(target.slice, scope)
+                base[self._key(base, k)] = v
+            else:
+                raise _Unsupported(f"item assignment on {type(base).__name__}")
+        else:
+            raise _Unsupported(f"assignment to {src(target)}")
+
+    def _key(self, d, k):
+        """The key of dict d that equals k (tokens compare through `eq`), else k itself if hashable."""
+        if isinstance(k, (_Tok, _Cat, _Alt)):
+            for e in d:
+                if self.eq(k, e):
+                    return e
+            if isinstance(k, _Tok):
+                return k
+            raise _Unsupported("derived token text used as a dictionary key")
+        for e in d:
+            if isinstance(e, _Tok) and self.eq(e, k):
+                return e
+        try:
+            hash(k)
+        except TypeError as e:
+            raise _Abort(str(e))
+        return k
+
+    def _slice(self, sl, scope):
+        lo = self.eval(sl.lower, scope) if sl.lower is not None else None
+        hi = self.eval(sl.upper, scope) if sl.upper is not None else None
+        st = self.eval(sl.step, scope) if sl.step is not None else None
+        for x in (lo, hi, st):
+            if x is not None and not isinstance(x, int):
+                raise _Abort("slice indices must be integers")
+        return slice(lo, hi, st)
+
+    # ------------------------------------------------------------------------------------------------ statements
+    def block(self, body, scope):
+        for st in body:
+            sig = yield from self.stmt(st, scope)
+            if sig is not None:
+                return sig
+        return None
+
+    def stmt(self, st, scope):
+        self.tick()
+        if isinstance(st, ast.Expr):
+            v = st.value
+            if isinstance(v, ast.Yield):
+                yield (self.eval(v.value, scope) if v.value is not None else None)
+                return None
+            if isinstance(v, ast.YieldFrom):
+                for x in self.iterate(self.eval(v.value, scope)):
+                    self.tick()
+                    yield x
+                return None
+            self.eval(v, scope)
+            return None
+        if isinstance(st, ast.Assign):
+            if isinstance(st.value, (ast.Yield, ast.YieldFrom)):
+                raise _Unsupported("value of a yield expression is used")
+            v = self.eval(st.value, scope)
+            for t in st.targets:
+                self.store(t, v, scope)
+            return None
+        if isinstance(st, ast.AnnAssign):
+            if st.value is not None:
+                self.store(st.target, self.eval(st.value, scope), scope)
+            return None
+        if isinstance(st, ast.AugAssign):
+            load = ast.copy_location(_as_load(st.target), st.target)
+            cur = self.eval(load, scope)
+            rhs = self.eval(st.value, scope)
+            if isinstance(cur, list) and isinstance(st.op, ast.Add):
+                cur.extend(self.iterate(rhs))
+                return None
+            self.store(st.target, self.binop(st.op, cur, rhs), scope)
+            return None
+        if isinstance(st, ast.If):
+            if self.truth(self.eval(st.test, scope)):
+                return (yield from self.block(st.body, scope))
+            return (yield from self.block(st.orelse, scope))
+        if isinstance(st, (ast.For,)):
+            broke = False
+            for x in self.iterate(self.eval(st.iter, scope)):
+                self.tick()
+                self.store(st.target, x, scope)
+                sig = yield from self.block(st.body, scope)
+                if sig == "break":
+                    broke = True
+                    break
+                if sig is not None and sig != "continue":
+                    return sig
+            if not broke and st.orelse:
+                return (yield from self.block(st.orelse, scope))
+            return None
+        if isinstance(st, ast.While):
+            broke = False
+            while self.truth(self.eval(st.test, scope)):
+                self.tick()
+                sig = yield from self.block(st.body, scope)
+                if sig == "break":
+                    broke = True
+                    break
+                if sig is not None and sig != "continue":
+                    return sig
+            if not broke and st.orelse:
+                return (yield from self.block(st.orelse, scope))
+            return None
+        if isinstance(st, ast.Pass):
+            return None
+        if isinstance(st, ast.Break):
+            return "break"
+        if isinstance(st, ast.Continue):
+            return "continue"
+        if isinstance(st, ast.Return):
+            return ("return", self.eval(st.value, scope) if st.value is not None else None)
+        if isinstance(st, ast.Assert):
+            if not self.truth(self.eval(st.test, scope)):
+                raise _Abort("assertion fails")
+            return None
+        if isinstance(st, ast.Raise):
+            raise _Abort("raise " + src(st.exc)[:60] if st.exc is not None else "raise")
+        if isinstance(st, ast.FunctionDef):
+            f = _scope_func(scope)
+            q = f"{f.qualname}.{st.name}" if f is not None else st.name
+            fn = (f.module.funcs.get(q) if f is not None else None)
+            if fn is None or fn.node is not st:
+                fn = Func(f.module, q, st, f.cls, f) if f is not None else None
+            scope.vars[st.name] = _Closure(st, fn, scope)
+            return None
+        if isinstance(st, ast.Delete):
+            for t in st.targets:
+                if isinstance(t, ast.Subscript):
+                    base = self.eval(t.value, scope)
+                    if isinstance(base, list):
+                        try:
+                            if isinstance(t.slice, ast.Slice):
+                                del base[self._slice(t.slice, scope)]
+                            else:
+                                del base[self.eval(t.slice, scope)]
+                        except (IndexError, TypeError) as e:
+                            raise _Abort(str(e))
+                        continue
+                if isinstance(t, ast.Name) and t.id in scope.vars:
+                    del scope.vars[t.id]
+                    continue
+                raise _Unsupported(f"del {src(t)}")
+            return None
+        if isinstance(st, ast.Nonlocal):
+            scope.nonlocals = tuple(scope.nonlocals) + tuple(st.names)
+            return None
+        if isinstance(st, (ast.Import, ast.ImportFrom)):
+            return None
+        raise _Unsupported(f"statement `{type(st).__name__}`")
+
+    # ------------------------------------------------------------------------------------------------ expressions
+    def eval(self, e, scope):
+        self.tick()
+        if isinstance(e, ast.Constant):
+            return e.value
+        if isinstance(e, ast.Name):
+            return self.lookup(e.id, scope)
+        if isinstance(e, ast.NamedExpr):
+            v = self.eval(e.value, scope)
+            self.store(e.target, v, scope)
+            return v
+        if isinstance(e, (ast.List, ast.Tuple, ast.Set)):
+            vals = []
+            for x in e.elts:
+                if isinstance(x, ast.Starred):
+                    vals.extend(self.iterate(self.eval(x.value, scope)))
+                else:
+                    vals.append(self.eval(x, scope))
+            if isinstance(e, ast.List):
+                return vals
+            if isinstance(e, ast.Tuple):
+                return tuple(vals)
+            if any(isinstance(v, (_Cat, _Alt, list, dict)) for v in vals):
+                raise _Unsupported("set of derived values")
+            return set(vals)
+        if isinstance(e, ast.Dict):
+            d = {}
+            for k, v in zip(e.keys, e.values):
+                if k is None:
+                    raise _Unsupported("dict unpacking")
+                d[self._key(d, self.eval(k, scope))] = self.eval(v, scope)
+            return d
+        if isinstance(e, ast.BinOp):
+            return self.binop(e.op, self.eval(e.left, scope), self.eval(e.right, scope))
+        if isinstance(e, ast.UnaryOp):
+            v = self.eval(e.operand, scope)
+            if isinstance(e.op, ast.Not):
+                return not self.truth(v)
+            if isinstance(v, (int, float)):
+                if isinstance(e.op, ast.USub):
+                    return -v
+                if isinstance(e.op, ast.UAdd):
+                    return +v
+                if isinstance(e.op, ast.Invert) and isinstance(v, int):
+                    return ~v
+            raise _Abort(f"bad operand for unary {type(e.op).__name__}")
+        if isinstance(e, ast.BoolOp):
+            v = None
+            for x in e.values:
+                v = self.eval(x, scope)
+                t = self.truth(v)
+                if isinstance(e.op, ast.And) and not t:
+                    return v
+                if isinstance(e.op, ast.Or) and t:
+                    return v
+            return v
+        if isinstance(e, ast.Compare):
+            left = self.eval(e.left, scope)
+            for op, r in zip(e.ops, e.comparators):
+                right = self.eval(r, scope)
+                if not self.compare(op, left, right):
+                    return False
+                left = right
+            return True
+        if isinstance(e, ast.IfExp):
+            return self.eval(e.body if self.truth(self.eval(e.test, scope)) else e.orelse, scope)
+        if isinstance(e, ast.Subscript):
+            return self.subscript(self.eval(e.value, scope), e.slice, scope)
+        if isinstance(e, ast.JoinedStr):
+            vals = []
+            for p in e.values:
+                if isinstance(p, ast.Constant):
+                    vals.append(p.value)
+                else:
+                    v = self.eval(p.value, scope)
+                    if p.format_spec is not None or p.conversion not in (-1, 115):
+                        v = _Alt("formatted with a conversion / format spec") if isinstance(v, (_Tok, _Cat, _Alt)) else self._plain_format(p, v, scope)
+                    vals.append(self.to_str(v))
+            return self.cat(*vals)
+        if isinstance(e, (ast.ListComp, ast.GeneratorExp, ast.SetComp)):
+            out = []
+            self._comp(e.generators, 0, _Scope(scope.func, scope), lambda sc: out.append(self.eval(e.elt, sc)))
+            if isinstance(e, ast.ListComp):
+                return out
+            if isinstance(e, ast.GeneratorExp):
+                return _It(out)
+            return set(out)
+        if isinstance(e, ast.DictComp):
+            d = {}
+
+            def put(sc):
+                d[self._key(d, self.eval(e.key, sc))] = self.eval(e.value, sc)
+
+            self._comp(e.generators, 0, _Scope(scope.func, scope), put)
+            return d
+        if isinstance(e, ast.Lambda):
+            return _Closure(e, _scope_func(scope), scope)
+        if isinstance(e, ast.Attribute):
+            base = self.eval(e.value, scope)
+            return self.attribute(base, e.attr)
+        if isinstance(e, ast.Call):
+            return self.call(e, scope)
+        if isinstance(e, (ast.Yield, ast.YieldFrom)):
+            raise _Unsupported("value of a yield expression is used")
+        raise _Unsupported(f"expression `{type(e).__name__}`")
+
+    def _plain_format(self, p, v, scope):
+        spec = self.eval(p.format_spec, scope) if p.format_spec is not None else ""
+        if not isinstance(spec, str):
+            raise _Unsupported("computed format spec")
+        try:
+            if p.conversion == 114:
+                v = repr(v)
+            elif p.conversion == 97:
+                v = ascii(v)
+            elif p.conversion == 115:
+                v = str(v)
+            return format(v, spec)
+        except Exception as ex:
+            raise _Abort(str(ex))
+
+    def _comp(self, gens, i, scope, emit):
+        if i == len(gens):
+            emit(scope)
+            return
+        g = gens[i]
+        for x in self.iterate(self.eval(g.iter, scope)):
+            self.tick()
+            self.store(g.target, x, scope)
+            if all(self.truth(self.eval(c, scope)) for c in g.ifs):
+                self._comp(gens, i + 1, scope, emit)
+
+    def attribute(self, base, attr):
+        if isinstance(base, _Self):
             try:
-                # " " * 4 * indent : whitespace times a number
-                base = v
-                while isinstance(base, ast.BinOp) and isinstance(base.op, ast.Mult):
-                    base = base.left
-                good = isinstance(base, ast.Constant) and isinstance(base.value, str) and base.value.strip() == ""
+                attrs = self.ctx.repo.class_attrs(base.cls_fq)
             except Exception:
-                good = False
-        elif isinstance(v, ast.Name):
-            # an element of the accumulated line (for i, x in enumerate(line): yield x) or the item itself
-            if v.id == item:
-                good = True
-            for st, val in assignments_to(pp.node, v.id):
-                if isinstance(st, ast.For):
-                    it = st.iter
-                    src_it = it.args[0] if isinstance(it, ast.Call) and dotted(it.func) == "enumerate" and it.args else it
-                    if dotted(src_it) == acc:
-                        good = True
-        ok_all = ok_all and good
-        details.append(f"{src(v)}:{'ok' if good else 'NOT a stream item / whitespace'}")
-    # every accumulated item is yielded: the inner loop over the accumulator yields each element unconditionally
-    inner = [s for s in ast.walk(pp.node) if isinstance(s, ast.For) and acc and (dotted(s.iter) == acc or (isinstance(s.iter, ast.Call) and dotted(s.iter.func) == "enumerate" and s.iter.args and dotted(s.iter.args[0]) == acc))]
-    every = False
-    if inner:
-        first = inner[0].body[0] if inner[0].body else None
-        every = isinstance(first, ast.Expr) and isinstance(first.value, ast.Yield)
-    appended_always = bool(loop) and any(isinstance(s, ast.Expr) and isinstance(s.value, ast.Call) and src(s.value) == f"{acc}.append({item})" for s in loop[0].body)
-    # the accumulator is only reset after being flushed
-    ctx.ob("R3", "TAINT", pp, "postproc yields", ok_all and every and appended_always,
-           f"yields only stream items or whitespace: {details}; every item is appended to the line unconditionally={appended_always}; every line element is yielded unconditionally={every}")
-    # flush condition covers the three statement terminators, so no item stays in an unflushed line at the end of a statement
-    conds = [s for s in ast.walk(pp.node) if isinstance(s, ast.If) and isinstance(s.test, ast.Compare) and dotted(s.test.left) == item and isinstance(s.test.ops[0], ast.In)]
+                attrs = {}
+            mname, _, cname = base.cls_fq.partition(".")
+            mod = self.ctx.repo.modules.get(mname)
+            if mod is not None and f"{cname}.{attr}" in mod.funcs:
+                fn = mod.funcs[f"{cname}.{attr}"]
+                decos = {dotted(d) for d in getattr(fn.node, "decorator_list", [])}
+                if decos & {"staticmethod"}:
+                    return _Closure(fn.node, fn, None)
+                if decos - {"classmethod"}:
+                    raise _Unsupported(f"decorated method {attr}")
+                return _Closure(fn.node, fn, None, recv=base)
+            if attr in attrs:
+                return self.eval(attrs[attr], _Scope(Func(mod, "<class>", mod.tree, None, None)))
+            raise _Unsupported(f"instance attribute self.{attr}")
+        if isinstance(base, _Builtin):
+            return _Builtin(f"{base.name}.{attr}")
+        raise _Unsupported(f"attribute .{attr} of a {type(base).__name__}")
+
+    def binop(self, op, a, b):
+        sym_a, sym_b = isinstance(a, (_Tok, _Cat, _Alt)), isinstance(b, (_Tok, _Cat, _Alt))
+        if isinstance(op, ast.Add):
+            if sym_a or sym_b:
+                return self.cat(a, b)
+            if isinstance(a, list) and isinstance(b, list):
+                return a + b
+            if isinstance(a, tuple) and isinstance(b, tuple):
+                return a + b
+        if isinstance(op, ast.Mult) and (sym_a or sym_b):
+            s, n = (a, b) if sym_a else (b, a)
+            if not isinstance(n, int):
+                raise _Abort("can't multiply sequence by non-int")
+            if isinstance(s, _Alt):
+                return s
+            if n > 64:
+                raise _Unsupported("large repetition of token text")
+            return self.cat(*([s] * max(n, 0))) if n > 0 else ""
+        if isinstance(op, ast.Mod) and isinstance(a, str) and (sym_b or (isinstance(b, tuple) and any(isinstance(x, (_Tok, _Cat, _Alt)) for x in b))):
+            args = list(b) if isinstance(b, tuple) else [b]
+            pieces = a.split("%s")
+            if "%" in "".join(pieces).replace("%%", "") or len(pieces) != len(args) + 1:
+                return _Alt("%-formatted with a conversion other than %s")
+            out = [pieces[0].replace("%%", "%")]
+            for x, lit in zip(args, pieces[1:]):
+                out += [self.to_str(x), lit.replace("%%", "%")]
+            return self.cat(*out)
+        if sym_a or sym_b:
+            raise _Unsupported(f"operator {type(op).__name__} on token text")
+        if isinstance(a, (_It, _Closure, _Self, _Builtin)) or isinstance(b, (_It, _Closure, _Self, _Builtin)):
+            raise _Abort(f"unsupported operand for {type(op).__name__}")
+        try:
+            if isinstance(op, ast.Add):
+                return a + b
+            if isinstance(op, ast.Sub):
+                return a - b
+            if isinstance(op, ast.Mult):
+                if isinstance(a, (str, list, tuple)) and isinstance(b, int) and b * max(len(a), 1) > 1 << 16 or isinstance(b, (str, list, tuple)) and isinstance(a, int) and a * max(len(b), 1) > 1 << 16:
+                    raise _Unsupported("very large repetition")
+                return a * b
+            if isinstance(op, ast.FloorDiv):
+                return a // b
+            if isinstance(op, ast.Div):
+                return a / b
+            if isinstance(op, ast.Mod):
+                if isinstance(a, str) and any(isinstance(x, (list, dict)) for x in (b if isinstance(b, tuple) else (b,))):
+                    raise _Unsupported("%-format of a container")
+                return a % b
+            if isinstance(op, ast.Pow):
+                if isinstance(a, int) and isinstance(b, int) and 0 <= b <= 64 and abs(a) <= 1 << 16:
+                    return a ** b
+                raise _Unsupported("pow")
+            if isinstance(op, ast.BitAnd):
+                return a & b
+            if isinstance(op, ast.BitOr):
+                return a | b
+            if isinstance(op, ast.BitXor):
+                return a ^ b
+            if isinstance(op, ast.LShift) and isinstance(b, int) and b < 64:
+                return a << b
+            if isinstance(op, ast.RShift):
+                return a >> b
+        except _Unsupported:
+            raise
+        except Exception as ex:
+            raise _Abort(str(ex))
+        raise _Unsupported(f"operator {type(op).__name__}")
+
+    def compare(self, op, a, b):
+        if isinstance(op, ast.Eq):
+            return self.eq(a, b)
+        if isinstance(op, ast.NotEq):
+            return not self.eq(a, b)
+        if isinstance(op, ast.In):
+            return self.contains(b, a)
+        if isinstance(op, ast.NotIn):
+            return not self.contains(b, a)
+        if isinstance(op, (ast.Is, ast.IsNot)):
+            if isinstance(a, _Tok) and isinstance(b, _Tok):
+                same = a.idx == b.idx
+            elif a is None or b is None or isinstance(a, bool) or isinstance(b, bool):
+                same = a is b
+            elif isinstance(a, (list, dict, set, _It, _Closure)) or isinstance(b, (list, dict, set, _It, _Closure)):
+                same = a is b
+            else:
+                raise _Unsupported("identity comparison of values")
+            return same if isinstance(op, ast.Is) else not same
+        sym = (_Tok, _Cat, _Alt)
+        if isinstance(a, sym) or isinstance(b, sym):
+            if isinstance(a, _STRINGISH) and isinstance(b, _STRINGISH):
+                ta = a.text if isinstance(a, _Tok) else a if isinstance(a, str) else None
+                tb = b.text if isinstance(b, _Tok) else b if isinstance(b, str) else None
+                if ta is not None and tb is not None:
+                    a, b = ta, tb
+                else:
+                    return self.choose(None)
+            else:
+                raise _Abort("ordering of str and non-str")
+        try:
+            if isinstance(op, ast.Lt):
+                return a < b
+            if isinstance(op, ast.LtE):
+                return a <= b
+            if isinstance(op, ast.Gt):
+                return a > b
+            if isinstance(op, ast.GtE):
+                return a >= b
+        except Exception as ex:
+            raise _Abort(str(ex))
+        raise _Unsupported(f"comparison {type(op).__name__}")
+
+    def subscript(self, base, sl, scope):
+        if isinstance(sl, ast.Slice):
+            s = self._slice(sl, scope)
+            if isinstance(base, (list, tuple, str, range)):
+                return base[s]
+            if isinstance(base, (_Tok, _Cat, _Alt)):
+                return _Alt("slice of token text")
+            raise _Abort(f"{type(base).__name__} is not subscriptable")
+        k = self.eval(sl, scope)
+        if isinstance(base, (list, tuple, str, range)):
+            if isinstance(k, bool) or not isinstance(k, int):
+                raise _Abort("indices must be integers")
+            try:
+                return base[k]
+            except IndexError as ex:
+                raise _Abort(str(ex))
+        if isinstance(base, dict):
+            kk = self._key(base, k)
+            if kk not in base:
+                raise _Abort(f"KeyError {k!r}")
+            return base[kk]
+        if isinstance(base, (_Tok, _Cat, _Alt)):
+            if isinstance(base, _Tok) and base.text is not None and isinstance(k, int):
+                try:
+                    return base.text[k]
+                except IndexError as ex:
+                    raise _Abort(str(ex))
+            return _Alt("character of token text")
+        if isinstance(base, (_Self, _Builtin)):
+            raise _Unsupported("subscript of an object the executor does not model")
+        raise _Abort(f"{type(base).__name__} is not subscriptable")
+
+    # ------------------------------------------------------------------------------------------------ calls
+    def call(self, e, scope):
+        args, kwargs = [], {}
+        fn = e.func
+        # method calls on values
+        if isinstance(fn, ast.Attribute):
+            recv = self.eval(fn.value, scope)
+            if not isinstance(recv, (_Self, _Builtin)):
+                args, kwargs = self._args(e, scope)
+                return self.method(recv, fn.attr, args, kwargs)
+            callee = self.attribute(recv, fn.attr)
+        else:
+            callee = self.eval(fn, scope)
+        args, kwargs = self._args(e, scope)
+        return self.apply(callee, args, kwargs)
+
+    def _args(self, e, scope):
+        args, kwargs = [], {}
+        for a in e.args:
+            if isinstance(a, ast.Starred):
+                args.extend(self.iterate(self.eval(a.value, scope)))
+            else:
+                args.append(self.eval(a, scope))
+        for k in e.keywords:
+            if k.arg is None:
+                d = self.eval(k.value, scope)
+                if not isinstance(d, dict) or not all(isinstance(x, str) for x in d):
+                    raise _Unsupported("** of a non-constant mapping")
+                kwargs.update(d)
+            else:
+                kwargs[k.arg] = self.eval(k.value, scope)
+        return args, kwargs
+
+    def apply(self, callee, args, kwargs):
+        if isinstance(callee, _Closure):
+            return self.invoke(callee, args, kwargs)
+        if isinstance(callee, _Builtin):
+            return self.builtin(callee.name, args, kwargs)
+        raise _Abort(f"{type(callee).__name__} object is not callable")
+
+    def invoke(self, c: _Closure, args, kwargs):
+        node = c.node
+        a = node.args
+        if a.vararg is not None or a.kwarg is not None:
+            raise _Unsupported("callee with *args / **kwargs")
+        args = list(c.bound.get(None, ())) + list(args)
+        kw = {k: v for k, v in c.bound.items() if k is not None}
+        kw.update(kwargs)
+        if c.recv is not None:
+            args = [c.recv] + args
+        names = [x.arg for x in a.posonlyargs + a.args]
+        if len(args) > len(names):
+            raise _Abort("too many positional arguments")
+        scope = _Scope(c.func, c.outer)
+        for n, v in zip(names, args):
+            scope.vars[n] = v
+        defaults = dict(zip(names[len(names) - len(a.defaults):], a.defaults))
+        for x, d in zip(a.kwonlyargs, a.kw_defaults):
+            names.append(x.arg)
+            if d is not None:
+                defaults[x.arg] = d
+        for k, v in kw.items():
+            if k not in names or k in scope.vars:
+                raise _Abort(f"unexpected / duplicate argument {k}")
+            scope.vars[k] = v
+        for n in names:
+            if n not in scope.vars:
+                if n not in defaults:
+                    raise _Abort(f"missing argument {n}")
+                scope.vars[n] = self.eval(defaults[n], _Scope(c.func, c.outer))
+        self.depth += 1
+        if self.depth > self.MAX_DEPTH:
+            raise _Unsupported("call depth")
+        try:
+            if isinstance(node, ast.Lambda):
+                return self.eval(node.body, scope)
+            if _is_generator(node):
+                return _It(self._gen(node, scope))
+            gen = self.block(node.body, scope)
+            try:
+                next(gen)
+            except StopIteration as stop:
+                sig = stop.value
+                return sig[1] if isinstance(sig, tuple) else None
+            raise _Unsupported("yield in a non-generator")  # pragma: no cover
+        finally:
+            self.depth -= 1
+
+    def _gen(self, node, scope):
+        sig = yield from self.block(node.body, scope)
+        return sig
+
+    def method(self, recv, name, args, kwargs):
+        if kwargs and not (isinstance(recv, str) and name == "format"):
+            raise _Unsupported(f"keyword arguments in .{name}()")
+        try:
+            if isinstance(recv, list):
+                return self._list_method(recv, name, args)
+            if isinstance(recv, dict):
+                return self._dict_method(recv, name, args)
+            if isinstance(recv, (set, frozenset)):
+                if name in ("add", "discard", "remove") and isinstance(recv, set) and len(args) == 1:
+                    k = args[0]
+                    present = next((x for x in recv if self.eq(x, k)), None)
+                    if name == "add":
+                        if present is None:
+                            if isinstance(k, (_Cat, _Alt, list, dict)):
+                                raise _Unsupported("set of derived values")
+                            recv.add(k)
+                    elif present is not None:
+                        recv.discard(present)
+                    elif name == "remove":
+                        raise _Abort("KeyError")
+                    return None
+                if name == "copy":
+                    return set(recv)
+                if name == "clear" and isinstance(recv, set):
+                    recv.clear()
+                    return None
+                raise _Unsupported(f"set method .{name}()")
+            if isinstance(recv, tuple):
+                if name == "index" and len(args) == 1:
+                    for i, x in enumerate(recv):
+                        if self.eq(x, args[0]):
+                            return i
+                    raise _Abort("ValueError")
+                if name == "count" and len(args) == 1:
+                    return sum(1 for x in recv if self.eq(x, args[0]))
+                raise _Unsupported(f"tuple method .{name}()")
+            if isinstance(recv, _STRINGISH):
+                return self._str_method(recv, name, args, kwargs)
+        except (_Unsupported, _Abort):
+            raise
+        except Exception as ex:
+            raise _Abort(f"{type(ex).__name__}: {ex}")
+        raise _Unsupported(f"method .{name}() of a {type(recv).__name__}")
+
+    def _list_method(self, recv, name, args):
+        if name == "append" and len(args) == 1:
+            recv.append(args[0])
+            return None
+        if name == "extend" and len(args) == 1:
+            recv.extend(self.iterate(args[0]))
+            return None
+        if name == "clear" and not args:
+            recv.clear()
+            return None
+        if name == "pop" and len(args) <= 1:
+            if args and not isinstance(args[0], int):
+                raise _Abort("pop index")
+            return recv.pop(*args)
+        if name == "insert" and len(args) == 2 and isinstance(args[0], int):
+            recv.insert(args[0], args[1])
+            return None
+        if name == "copy" and not args:
+            return list(recv)
+        if name == "reverse" and not args:
+            recv.reverse()
+            return None
+        if name in ("index", "count", "remove") and len(args) == 1:
+            hits = [i for i, x in enumerate(recv) if self.eq(x, args[0])]
+            if name == "count":
+                return len(hits)
+            if not hits:
+                raise _Abort("ValueError: not in list")
+            if name == "index":
+                return hits[0]
+            del recv[hits[0]]
+            return None
+        raise _Unsupported(f"list method .{name}()")
+
+    def _dict_method(self, recv, name, args):
+        if name == "get" and 1 <= len(args) <= 2:
+            k = self._key(recv, args[0])
+            return recv[k] if k in recv else (args[1] if len(args) == 2 else None)
+        if name == "setdefault" and len(args) == 2:
+            k = self._key(recv, args[0])
+            return recv.setdefault(k, args[1])
+        if name == "pop" and 1 <= len(args) <= 2:
+            k = self._key(recv, args[0])
+            if k in recv:
+                return recv.pop(k)
+            if len(args) == 2:
+                return args[1]
+            raise _Abort("KeyError")
+        if name == "keys" and not args:
+            return list(recv.keys())
+        if name == "values" and not args:
+            return list(recv.values())
+        if name == "items" and not args:
+            return [(k, v) for k, v in recv.items()]
+        if name == "copy" and not args:
+            return dict(recv)
+        if name == "clear" and not args:
+            recv.clear()
+            return None
+        raise _Unsupported(f"dict method .{name}()")
+
+    def _str_method(self, recv, name, args, kwargs):
+        if name == "join" and len(args) == 1:
+            elems = list(self.iterate(args[0]))
+            out = []
+            for i, x in enumerate(elems):
+                if not isinstance(x, _STRINGISH):
+                    raise _Abort("sequence item: expected str instance")
+                if i:
+                    out.append(recv)
+                out.append(x)
+            return self.cat(*out) if out else ""
+        if name == "format" and isinstance(recv, str):
+            import string
+
+            out, auto = [], 0
+            try:
+                fields = list(string.Formatter().parse(recv))
+            except ValueError as ex:
+                raise _Abort(str(ex))
+            for lit, field, spec, conv in fields:
+                out.append(lit)
+                if field is None:
+                    continue
+                if field == "":
+                    field, auto = str(auto), auto + 1
+                if field.isdigit():
+                    if int(field) >= len(args):
+                        raise _Abort("format index")
+                    v = args[int(field)]
+                elif field in kwargs:
+                    v = kwargs[field]
+                else:
+                    raise _Unsupported("format field with attribute / index access")
+                if spec or conv not in (None, "s"):
+                    if isinstance(v, (_Tok, _Cat, _Alt)):
+                        v = _Alt("formatted with a conversion / format spec")
+                    elif isinstance(v, (int, float, str, bool)) or v is None:
+                        v = format(repr(v) if conv == "r" else v, spec or "")
+                    else:
+                        raise _Unsupported("format of a container")
+                out.append(self.to_str(v))
+            return self.cat(*out)
+        plain_args = []
+        for x in args:
+            if isinstance(x, _Tok) and x.text is not None:
+                plain_args.append(x.text)
+            elif isinstance(x, (str, int, type(None))) or (isinstance(x, tuple) and all(isinstance(y, str) for y in x)):
+                plain_args.append(x)
+            else:
+                plain_args = None
+                break
+        if name not in _STR_PURE:
+            if name == "encode" and isinstance(recv, (_Tok, _Cat, _Alt)):
+                return _Alt("encoded token text")
+            raise _Unsupported(f"str method .{name}()")
+        if isinstance(recv, str):
+            if plain_args is None:
+                if name in ("startswith", "endswith", "find", "rfind", "count", "index", "rindex") and args and isinstance(args[0], (_Tok, _Cat, _Alt)):
+                    if name in ("startswith", "endswith"):
+                        return self.choose(None) if recv else False
+                    raise _Unsupported(f"position of token text inside a constant (.{name})")
+                return _Alt(f".{name}() with token text as an argument")
+            return getattr(recv, name)(*plain_args)
+        # receiver carries token text
+        if isinstance(recv, _Tok) and recv.text is not None and plain_args is not None and name in _STR_PREDICATES:
+            return getattr(recv.text, name)(*plain_args)
+        if name in _STR_PREDICATES:
+            if name == "isspace" and isinstance(recv, (_Tok,)):
+                return False  # an item of the stream is never blank
+            if name == "isspace" and isinstance(recv, _Cat):
+                return False  # contains a whole token
+            key = ("pred", recv.idx, name, tuple(plain_args)) if isinstance(recv, _Tok) and plain_args is not None and all(isinstance(x, (str, int, type(None), tuple)) for x in plain_args) else None
+            return self.choose(key)
+        if name in ("find", "rfind", "index", "rindex", "count"):
+            raise _Unsupported(f"position inside token text (.{name})")
+        if name in ("split", "rsplit", "splitlines", "partition", "rpartition"):
+            raise _Unsupported(f"token text is split (.{name})")
+        return _Alt(f".{name}() applied to token text")
+
+    def builtin(self, name, args, kwargs):
+        try:
+            return self._builtin(name, args, kwargs)
+        except (_Unsupported, _Abort):
+            raise
+        except Exception as ex:
+            raise _Abort(f"{type(ex).__name__}: {ex}")
+
+    def _builtin(self, name, args, kwargs):
+        if name in ("ext:functools.partial", "ext:functools.partial.partial") or name.endswith("functools.partial"):
+            if not args or not isinstance(args[0], _Closure):
+                raise _Unsupported("functools.partial of a non-package callable")
+            c = args[0]
+            bound = dict(c.bound)
+            bound[None] = tuple(bound.get(None, ())) + tuple(args[1:])
+            bound.update(kwargs)
+            return _Closure(c.node, c.func, c.outer, bound, c.recv)
+        if name.startswith(("ext:", "cls:")):
+            raise _Unsupported(f"call of {name[4:]}")
+        if kwargs and name not in ("enumerate", "print", "next", "min", "max", "sorted", "zip", "sum"):
+            raise _Unsupported(f"keyword arguments in {name}()")
+        if name == "len" and len(args) == 1:
+            v = args[0]
+            if isinstance(v, (list, tuple, dict, set, frozenset, str, range)):
+                return len(v)
+            if isinstance(v, _Tok) and v.text is not None:
+                return len(v.text)
+            if isinstance(v, (_Tok, _Cat, _Alt)):
+                raise _Unsupported("length of token text")
+            raise _Abort("object has no len()")
+        if name == "range":
+            if not all(isinstance(x, int) for x in args):
+                raise _Abort("range() arguments must be integers")
+            r = range(*args)
+            if len(r) > 10000:
+                raise _Unsupported("very long range")
+            return r
+        if name == "enumerate" and 1 <= len(args) <= 2:
+            start = kwargs.get("start", args[1] if len(args) == 2 else 0)
+            if not isinstance(start, int):
+                raise _Abort("enumerate start")
+            return _It(_lazy_enumerate(self.iterate(args[0]), start))
+        if name == "zip":
+            if kwargs:
+                raise _Unsupported("zip(strict=)")
+            return _It(zip(*[self.iterate(a) for a in args]))
+        if name == "reversed" and len(args) == 1 and isinstance(args[0], (list, tuple, range, str)):
+            return _It(reversed(args[0]))
+        if name in ("list", "tuple") and len(args) <= 1:
+            vals = list(self.iterate(args[0])) if args else []
+            return vals if name == "list" else tuple(vals)
+        if name in ("set", "frozenset") and len(args) <= 1:
+            vals = list(self.iterate(args[0])) if args else []
+            if any(isinstance(v, (_Cat, _Alt, list, dict)) for v in vals):
+                raise _Unsupported("set of derived values")
+            out = []
+            for v in vals:
+                if not any(self.eq(v, o) for o in out):
+                    out.append(v)
+            return set(out) if name == "set" else frozenset(out)
+        if name == "dict" and not args:
+            return dict(kwargs)
+        if name == "str" and len(args) <= 1:
+            return self.to_str(args[0]) if args else ""
+        if name == "repr" and len(args) == 1:
+            return _Alt("repr() of token text") if isinstance(args[0], (_Tok, _Cat, _Alt)) else repr(args[0]) if isinstance(args[0], (int, str, float, bool, type(None))) else _Alt("repr()")
+        if name == "int" and len(args) == 1 and isinstance(args[0], (int, str, float, bool)):
+            return int(args[0])
+        if name == "float" and len(args) == 1 and isinstance(args[0], (int, str, float, bool)):
+            return float(args[0])
+        if name == "bool" and len(args) <= 1:
+            return self.truth(args[0]) if args else False
+        if name == "abs" and len(args) == 1 and isinstance(args[0], (int, float)):
+            return abs(args[0])
+        if name == "divmod" and len(args) == 2 and all(isinstance(x, int) for x in args):
+            return divmod(*args)
+        if name in ("min", "max"):
+            vals = list(self.iterate(args[0])) if len(args) == 1 else list(args)
+            if "key" in kwargs or not all(isinstance(v, (int, float)) for v in vals):
+                raise _Unsupported(f"{name}() of non-numbers")
+            if not vals:
+                if "default" in kwargs:
+                    return kwargs["default"]
+                raise _Abort(f"{name}() of an empty sequence")
+            return min(vals) if name == "min" else max(vals)
+        if name == "sum" and 1 <= len(args) <= 2:
+            vals = list(self.iterate(args[0]))
+            if not all(isinstance(v, (int, float)) for v in vals):
+                raise _Unsupported("sum() of non-numbers")
+            return sum(vals, *(args[1:] if len(args) == 2 and isinstance(args[1], (int, float)) else ()))
+        if name in ("any", "all") and len(args) == 1:
+            ts = [self.truth(v) for v in self.iterate(args[0])]
+            return any(ts) if name == "any" else all(ts)
+        if name == "sorted":
+            raise _Unsupported("sorted()")
+        if name == "iter" and len(args) == 1:
+            return args[0] if isinstance(args[0], _It) else _It(self.iterate(args[0]))
+        if name == "next" and 1 <= len(args) <= 2:
+            if not isinstance(args[0], _It):
+                raise _Abort("next() of a non-iterator")
+            for x in args[0].it:
+                return x
+            if len(args) == 2:
+                return args[1]
+            raise _Abort("StopIteration")
+        if name == "print":
+            return None
+        if name == "isinstance" and len(args) == 2:
+            return self._isinstance(args[0], args[1])
+        if name in ("str", "int", "bool", "list", "tuple", "dict", "set", "bytes", "float", "object", "type", "frozenset"):
+            raise _Unsupported(f"{name}() with these arguments")
+        raise _Unsupported(f"builtin {name}()")
+
+    def _isinstance(self, v, t):
+        if isinstance(t, tuple):
+            return any(self._isinstance(v, x) for x in t)
+        if not isinstance(t, _Builtin):
+            raise _Unsupported("isinstance against a computed type")
+        py = {"str": (str, _Tok, _Cat, _Alt), "int": (int,), "bool": (bool,), "list": (list,), "tuple": (tuple,), "dict": (dict,), "set": (set,), "frozenset": (frozenset,),
+              "float": (float,), "bytes": (bytes,), "object": (object,)}
+        if t.name in py:
+            return isinstance(v, py[t.name])
+        if isinstance(v, _Tok):
+            # lark yields filtered keywords as plain str and kept terminals as Token (a str subclass)
+            if v.text is not None:
+                return False
+            return self.choose(("isinst", v.idx, t.name))
+        if t.name.startswith(("ext:", "cls:")):
+            return False
+        raise _Unsupported(f"isinstance against {t.name}")
+
+
+def _lazy_enumerate(it, start):
+    i = start
+    for x in it:
+        yield i, x
+        i += 1
+
+
+def _as_load(t):
+    import copy
+
+    t = copy.copy(t)
+    t.ctx = ast.Load()
+    return t
+
+
+def _scope_func(scope):
+    return scope.func
+
+
+# ---------------------------------------------------------------------------------------------- token stream families
+def _sentences(max_tokens):
+    """Family A - every token skeleton of the profile language with at most max_tokens items: a statement is 1-3 words
+    and `;`, a block is a keyword, an optional variant word, `{`, statements/blocks, `}`; a profile is a non-empty
+    sequence of them."""
+    stm, seq = {}, {0: [()]}
+
+    def stmts(n):
+        if n not in stm:
+            out = []
+            if 2 <= n <= 4:
+                out.append(("w",) * (n - 1) + (";",))
+            for h in (1, 2):
+                if n - h - 2 >= 0:
+                    for body in seqs(n - h - 2):
+                        out.append(("w",) * h + ("{",) + body + ("}",))
+            stm[n] = out
+        return stm[n]
+
+    def seqs(n):
+        if n not in seq:
+            out = []
+            for k in range(2, n + 1):
+                for s in stmts(k):
+                    for rest in seqs(n - k):
+                        out.append(s + rest)
+            seq[n] = out
+        return seq[n]
+
+    out = []
+    for n in range(2, max_tokens + 1):
+        out.extend(seqs(n))
+    return out
+
+
+def _short_streams(max_tokens):
+    """Family B - every stream over {word, `{`, `}`, `;`} with at most max_tokens items that ends in a statement
+    terminator (not necessarily a sentence: the post-processor is handed a flat item stream)."""
+    import itertools
+
+    out = []
+    for n in range(1, max_tokens + 1):
+        for head in itertools.product(("w", "{", "}", ";"), repeat=n - 1):
+            for last in (";", "}"):
+                out.append(tuple(head) + (last,))
+    return out
+
+
+_DEEP = [
+    # http-get "v" { set uri "a"; client { header "a" "b"; metadata { base64; prepend "x"; header "Cookie"; } } server { output { print; } } } set sleeptime "1";
+    "w w { w w w ; w { w w w ; w { w ; w w ; w w ; } } w { w { w ; } } } w w w ;",
+    # stage { set x "y"; transform-x86 { strrep "a" "b"; } beacon_gate { All; } } post-ex { } process-inject { execute { CreateThread "x"; } }
+    "w { w w w ; w { w w w ; } w { w ; } } w { } w { w { w w ; } }",
+    "w { w { w { w { w ; } } } } w ;",
+]
+
+
+def _mk_stream(shape):
+    return [_Tok(i, None if s == "w" else s) for i, s in enumerate(shape)]
+
+
+def _show(shape):
+    return " ".join(f"w{i}" if s == "w" else s for i, s in enumerate(shape))
+
+
+def _audit(toks, out, spaces_between_items):
+    """-> (taint problem | None, missing item indices).
+
+    The emitted text is lexed as far as that is possible without knowing the words: a token piece is itself, constant
+    text is whitespace and single-character delimiters (any other constant character is foreign text).  The output
+    preserves the stream iff this lexeme sequence equals the item sequence: a word position must hold that very item, a
+    delimiter position a delimiter with the same text (a constant `;` and the item `;` are the same text), and two words
+    must be separated by whitespace or an item boundary (lark inserts a space there)."""
+    lex = []  # (token | delimiter text, separated from the previous lexeme)
+    sep = True
+    prev_nonempty = False
+    for v in out:
+        # lark puts a space between two consecutive non-empty items that would otherwise fuse into one word
+        nonempty = not (isinstance(v, str) and v == "")
+        if spaces_between_items and prev_nonempty and nonempty:
+            sep = True
+        prev_nonempty = nonempty
+        if isinstance(v, _Alt):
+            return f"yields {v!r}: token text that went through an operation that can change it, not the stream item itself", []
+        if not isinstance(v, _STRINGISH):
+            return f"yields a {type(v).__name__} ({v!r}), not a stream item or whitespace", []
+        for p in _parts(v):
+            if isinstance(p, _Tok):
+                lex.append((p, sep))
+                sep = False
+                continue
+            for ch in p:
+                if ch.isspace():
+                    sep = True
+                elif ch in _DELIMS:
+                    lex.append((ch, sep))
+                    sep = False
+                else:
+                    return f"yields the text {p!r}, which is neither a stream item nor whitespace", []
+
+    def same(l, t):
+        if isinstance(l, _Tok) and l.idx == t.idx:
+            return True
+        lt = l.text if isinstance(l, _Tok) else l
+        return lt is not None and t.text is not None and lt == t.text
+
+    j = 0
+    missing = []
+    prev_word = False
+    for l, separated in lex:
+        k = next((k for k in range(j, len(toks)) if same(l, toks[k])), None)
+        if k is None:
+            if isinstance(l, _Tok) and l.text is None:
+                return f"emits item {l!r} (position {l.idx}) again / out of stream order", []
+            return f"emits a `{l if isinstance(l, str) else l.text}` that is not at this place in the stream (extra, repeated or reordered delimiter)", []
+        missing.extend(range(j, k))
+        j = k + 1
+        is_word = isinstance(l, _Tok) and l.text is None
+        if is_word and prev_word and not separated:
+            return f"emits item {l!r} glued to the previous word without whitespace between them", []
+        prev_word = is_word
+    missing.extend(range(j, len(toks)))
+    return None, missing
+
+
+_MAX_ALTERNATIVES = 40  # per stream
+_ALTERNATIVES_BUDGET = 1500  # over all streams (the smallest streams come first)
+
+
+def _run_postproc(ctx, pp: _Closure, shape, spaces, budget):
+    """Symbolic runs of the post-processor on one stream shape -> (list of (taint, missing, aborted, forked), truncated).
+
+    The first run answers every question about the text of a symbolic word with "no"; the alternatives (one more "yes"
+    at a time, fewest first) are explored up to _MAX_ALTERNATIVES runs per stream and `budget[0]` runs overall."""
+    results = []
+    pending = [()]
+    seen = {()}
+    truncated = False
+    while pending:
+        if len(results) >= _MAX_ALTERNATIVES or (results and budget[0] <= 0):
+            truncated = True
+            break
+        if results:
+            budget[0] -= 1
+        pending.sort(key=lambda o: (sum(o), len(o)))
+        oracle = pending.pop(0)
+        sym = _Sym(ctx, oracle)
+        toks = _mk_stream(shape)
+        aborted = None
+        out = []
+        try:
+            res = sym.invoke(pp, [_It(toks)], {})
+            if res is None:
+                raise _Abort("the post-processor returns None (lark iterates over its result)")
+            for x in sym.iterate(res):
+                out.append(x)
+        except _Abort as ex:
+            aborted = str(ex)
+        except (_Unsupported, RecursionError):
+            raise
+        except Exception as ex:  # a gap in the executor's model of Python must never look like a verdict
+            raise _Unsupported(f"executor error {type(ex).__name__}: {ex}")
+        for i in range(len(oracle), len(sym.trace)):
+            alt = tuple(sym.trace[:i]) + (True,)
+            if not sym.trace[i] and alt not in seen:
+                seen.add(alt)
+                pending.append(alt)
+        if aborted is not None:
+            results.append((None, [], aborted, bool(sym.trace)))
+        else:
+            taint, missing = _audit(toks, out, spaces)
+            results.append((taint, missing, None, bool(sym.trace)))
+    return results, truncated
+
+
+# ---------------------------------------------------------------------------------------------- locating by role
+def _external_name(ctx, f: Func, call: ast.Call):
+    """Dotted external name a call's callee resolves to (through the module's imports), else None."""
+    d = dotted(call.func)
+    if not d:
+        return None
+    s = ctx.rs.lookup_dotted(f.module.name, d)
+    if s is not None and s.kind == "external":
+        return s.name
+    return None
+
+
+def _inl(f: Func, e):
+    return strip_cast(inline(f.node, e))
+
+
+def _module_value(f: Func, e):
+    """A name bound once at module level -> its value expression (else e)."""
+    for _ in range(4):
+        if isinstance(e, ast.Name) and e.id in f.module.consts and not assignments_to(f.node, e.id) and e.id not in params(f.node):
+            e = f.module.consts[e.id]
+        else:
+            break
+    return e
+
+
+def _is_reconstructor(ctx, f: Func, e) -> bool:
+    e = _module_value(f, _inl(f, e))
+    if isinstance(e, ast.Call):
+        n = _external_name(ctx, f, e)
+        return bool(n) and n.split(".")[-1] == "Reconstructor" and n.startswith("lark")
+    return False
+
+
+def _reconstruct_calls(ctx, f: Func):
+    """(call, reconstructor-constructor call) for every `.reconstruct(...)` on a lark Reconstructor in f."""
+    out = []
+    for c in _own_nodes(f.node):
+        if isinstance(c, ast.Call) and isinstance(c.func, ast.Attribute) and c.func.attr == "reconstruct" and _is_reconstructor(ctx, f, c.func.value):
+            out.append((c, _module_value(f, _inl(f, c.func.value))))
+    return out
+
+
+def _lark_arg(call: ast.Call, idx: int, name: str):
+    """Argument of lark's Reconstructor API by position or keyword (signatures are part of the trusted base)."""
+    if len(call.args) > idx and not any(isinstance(a, ast.Starred) for a in call.args[: idx + 1]):
+        return call.args[idx]
+    return kwarg(call, name)
+
+
+def _parser_identity(ctx, f: Func, e):
+    """A stable identity for `the parser object` an expression denotes: the module-level name bound to a Lark instance."""
+    e = _inl(f, e)
+    if isinstance(e, ast.Name) and e.id in f.module.consts and not assignments_to(f.node, e.id) and e.id not in params(f.node):
+        v = f.module.consts[e.id]
+        seen = {e.id}
+        while isinstance(v, ast.Name) and v.id in f.module.consts and v.id not in seen:
+            seen.add(v.id)
+            e, v = v, f.module.consts[v.id]
+        if isinstance(v, ast.Call):
+            n = _external_name(ctx, f, v) or ""
+            if n.startswith("lark") and ".Lark" in "." + n:
+                return e.id
+    return None
+
+
+def _callable_of(ctx, f: Func, e):
+    """The package callable an expression of function f denotes -> _Closure, "none" (the constant None), or None."""
+    e = _inl(f, e)
+    if isinstance(e, ast.Constant) and e.value is None:
+        return "none"
+    sym = _Sym(ctx)
     try:
-        fl = const_eval(conds[0].test.comparators[0]) if conds else None
-    except NotConst:
-        fl = None
-    ctx.ob("R3", "TAINT", pp, "flush on terminators", fl is not None and set(fl) == set("{};"), f"line is flushed when the item is one of {fl!r} (required the terminators {{ }} ;)")
-    rets = [s for s in statements(f.node) if isinstance(s, ast.Return)]
-    ok = False
-    if len(rets) == 1 and isinstance(origin(f.node, rets[0].value), ast.Call):
-        c = origin(f.node, rets[0].value)
-        if isinstance(c.func, ast.Attribute) and c.func.attr == "reconstruct" and len(c.args) >= 1:
-            rc = origin(f.node, c.func.value)
-            mk = isinstance(rc, ast.Call) and dotted(rc.func) in ("Reconstructor", "lark.reconstruct.Reconstructor") and rc.args and dotted(rc.args[0]) == "c2profile_parser"
-            tree_ok = any(dotted(n) == "self.tree" for n in ast.walk(c.args[0]))
-            pp_arg = c.args[1] if len(c.args) > 1 else kwarg(c, "postproc")
-            ok = bool(mk) and tree_ok and (pp_arg is None or dotted(pp_arg) == "postproc")
-    ctx.ob("R3", "AGREE", f, "return Reconstructor(parser).reconstruct(self.tree, postproc)", ok, "as_text returns the reconstruction of the profile's own tree" if ok else f"as_text returns {src(rets[0].value) if rets else None}")
-    ft = ctx.repo.func("c2profile.C2Profile.from_text")
-    st = [s for s in statements(ft.node) if isinstance(s, ast.Assign) and (dotted(s.targets[0]) or "").endswith(".tree")]
-    ok = False
-    if len(st) == 1 and isinstance(st[0].value, ast.Call):
-        c = st[0].value
-        ok = dotted(c.func) == "c2profile_parser.parse" and len(c.args) == 1 and dotted(c.args[0]) == params(ft.node)[1]
-    ctx.ob("R3", "AGREE", ft, "profile.tree = parser.parse(source)", ok, "from_text stores the parser's tree unmodified" if ok else f"from_text stores {[src(s.value) for s in st]}")
+        v = sym.eval(e, _static_scope(f))
+    except (_Unsupported, _Abort, RecursionError):
+        return None
+    return v if isinstance(v, _Closure) else None
+
+
+def _static_scope(f: Func):
+    """A scope in which the names of function f resolve statically (nested defs, single assignments, self)."""
+    # evaluate as if inside a nested function of f: free-variable rules of `_Sym.lookup` then apply to f itself
+    return _Scope(Func(f.module, f.qualname + ".<expr>", f.node, f.cls, f))
+
+
+def _tree_stores(fn: Func):
+    """Assignments `<x>.tree = value` of a function (the place where a parse tree is attached to a profile)."""
+    out = []
+    for s in _own_nodes(fn.node):
+        tgts = s.targets if isinstance(s, ast.Assign) else [s.target] if isinstance(s, ast.AnnAssign) and s.value is not None else []
+        for t in tgts:
+            if isinstance(t, ast.Attribute) and t.attr == "tree":
+                out.append((s, t))
+    return out
+
+
+def _stores_parsed_tree(fn: Func) -> bool:
+    return any(isinstance(n, ast.Call) and isinstance(n.func, ast.Attribute) and n.func.attr == "parse" for s, _t in _tree_stores(fn) for n in ast.walk(_inl(fn, s.value)))
+
+
+def _by_role(ctx, name: str, has_role, keeps_role=None):
+    """The function `c2profile.<name>` if it (still) plays the role, else the functions of the module that do."""
+    mod = ctx.repo.module(MOD)
+    f = mod.funcs.get(name)
+    if f is not None and (keeps_role or has_role)(f):
+        return [f]
+    return [g for _q, g in sorted(mod.funcs.items()) if g is not f and has_role(g)]
+
+
+def r3(ctx):
+    mod = ctx.repo.module(MOD)
+    renderers = _by_role(ctx, "C2Profile.as_text", lambda g: bool(_reconstruct_calls(ctx, g)))
+    readers = _by_role(ctx, "C2Profile.from_text", _stores_parsed_tree, lambda g: bool(_tree_stores(g)))
+    recon_parsers = set()
+    # ------------------------------------------------------------------ the post-processor of the token stream
+    if not renderers:
+        where = mod.funcs.get("C2Profile.as_text") or mod.relpath
+        why = "no function of c2profile.py calls `.reconstruct(...)` on a lark Reconstructor: the text is produced by a different mechanism"
+        ctx.undecided("R3", "TAINT", where, "postproc yields", why)
+        ctx.undecided("R3", "TAINT", where, "flush on terminators", why)
+        ctx.undecided("R3", "AGREE", where, "return Reconstructor(parser).reconstruct(self.tree, postproc)", why)
+    for f in renderers:
+        calls = _reconstruct_calls(ctx, f)
+        for call, _mk in calls:
+            _postproc_obligations(ctx, f, call)
+        # -------------------------------------------------------------- it returns that reconstruction of its own tree
+        rets = [s for s in _own_nodes(f.node) if isinstance(s, ast.Return)]
+        problems, wrapped = [], []
+        for r in rets:
+            v = _inl(f, r.value) if r.value is not None else None
+            if not (isinstance(v, ast.Call) and any(src(v) == src(_inl(f, c)) for c, _mk in calls)):
+                problems.append(f"returns {src(r.value) if r.value is not None else None}, not the reconstruction itself")
+        if not rets:
+            problems.append(f"{f.qualname} has no return statement")
+        pid_from = None
+        for c, mk in calls:
+            parser = _lark_arg(mk, 0, "parser")
+            pid = _parser_identity(ctx, f, parser) if parser is not None else None
+            if parser is None or pid is None:
+                problems.append(f"Reconstructor is built from {src(parser) if parser is not None else None}, not from the module's Lark parser")
+            else:
+                pid_from = pid
+                recon_parsers.add(pid)
+            tree = _lark_arg(c, 0, "tree")
+            self_name = params(f.node)[0] if params(f.node) else "self"
+            tv = _inl(f, tree) if tree is not None else None
+            if tv is None or not any(dotted(n) == f"{self_name}.tree" for n in ast.walk(tv)):
+                problems.append(f"reconstructs {src(tree) if tree is not None else None}, not the profile's own tree")
+            elif dotted(tv) != f"{self_name}.tree":
+                wrapped.append(src(tree))
+        if wrapped and not problems:
+            ctx.undecided("R3", "AGREE", f, "return Reconstructor(parser).reconstruct(self.tree, postproc)", f"the tree handed to reconstruct is derived from the profile's tree (`{wrapped[0]}`); whether it is the same tree is not decided")
+        else:
+            ctx.ob("R3", "AGREE", f, "return Reconstructor(parser).reconstruct(self.tree, postproc)", not problems,
+                   f"{f.qualname} returns the reconstruction of the profile's own tree by a Reconstructor of the module parser `{pid_from}`" if not problems else "; ".join(problems))
+    # ------------------------------------------------------------------ from_text stores the parser's tree of the source unmodified
+    if not readers:
+        where = mod.funcs.get("C2Profile.from_text") or mod.relpath
+        ctx.undecided("R3", "AGREE", where, "profile.tree = parser.parse(source)", "no function of c2profile.py assigns a `.parse(...)` result to a `.tree` attribute: the tree is attached by a different mechanism")
+    for ft in readers:
+        problems = []
+        for s, _t in _tree_stores(ft):
+            v = _inl(ft, s.value)
+            if isinstance(v, ast.Call) and isinstance(v.func, ast.Attribute) and v.func.attr == "parse":
+                pid = _parser_identity(ctx, ft, v.func.value)
+                a = _lark_arg(v, 0, "text")
+                a = _inl(ft, a) if a is not None else None
+                src_ok = isinstance(a, ast.Name) and a.id in params(ft.node) and a.id not in ("self", "cls") and not assignments_to(ft.node, a.id)
+                if pid is None:
+                    problems.append(f"parses with {src(v.func.value)}, not the module's Lark parser")
+                elif recon_parsers and pid not in recon_parsers:
+                    problems.append(f"parses with `{pid}` but the text is reconstructed with `{sorted(recon_parsers)[0]}`")
+                elif not src_ok:
+                    problems.append(f"parses {src(a) if a is not None else None}, not the source text it was given")
+                elif len(v.args) + len(v.keywords) > 1:
+                    problems.append(f"passes extra arguments to parse(): {src(v)}")
+            else:
+                problems.append(f"stores {src(s.value)}")
+        ctx.ob("R3", "AGREE", ft, "profile.tree = parser.parse(source)", not problems, f"{ft.qualname} stores the parser's tree of its source argument unmodified" if not problems else f"{ft.qualname}: " + "; ".join(problems))
+
+
+def _postproc_obligations(ctx, f: Func, call: ast.Call):
+    pp_arg = _lark_arg(call, 1, "postproc")
+    spaces = True
+    sp = _lark_arg(call, 2, "insert_spaces")
+    if sp is not None:
+        spv = _inl(f, sp)
+        if isinstance(spv, ast.Constant) and spv.value in (False, 0, None):
+            spaces = False
+    if pp_arg is None or _callable_of(ctx, f, pp_arg) == "none":
+        msg = "no post-processor is handed to Reconstructor.reconstruct: lark joins the item stream as it is"
+        ctx.ob("R3", "TAINT", f, "postproc yields", True, msg, call, nontrivial=False)
+        ctx.ob("R3", "TAINT", f, "flush on terminators", True, msg, call, nontrivial=False)
+        return
+    pp = _callable_of(ctx, f, pp_arg)
+    if pp is None:
+        why = f"the post-processor handed to Reconstructor.reconstruct (`{src(pp_arg)}`) cannot be resolved to a function of the package"
+        ctx.undecided("R3", "TAINT", f, "postproc yields", why, call)
+        ctx.undecided("R3", "TAINT", f, "flush on terminators", why, call)
+        return
+    where = pp.func if isinstance(pp.func, Func) and pp.func.node is pp.node else f
+    families = [("sentence", [tuple(s) for s in _sentences(10)] + [tuple(d.split()) for d in _DEEP]), ("item stream", _short_streams(4))]
+    taint_bad = flush_bad = None
+    n_runs = n_abort = n_trunc = 0
+    budget = [_ALTERNATIVES_BUDGET]
+    try:
+        for fam, shapes in families:
+            for shape in shapes:
+                results, truncated = _run_postproc(ctx, pp, shape, spaces, budget)
+                n_trunc += 1 if truncated else 0
+                for taint, missing, aborted, forked in results:
+                    n_runs += 1
+                    if aborted is not None:
+                        n_abort += 1
+                        if fam == "sentence" and forked:
+                            # the run assumed answers about the text of words; they may be contradictory
+                            raise _Unsupported(f"the post-processor may raise on the sentence `{_show(shape)}`: {aborted}")
+                        if fam == "sentence" and taint_bad is None:
+                            taint_bad = f"on the sentence `{_show(shape)}` the post-processor raises ({aborted}) instead of yielding the items"
+                        continue
+                    if taint and taint_bad is None:
+                        taint_bad = f"on the {fam} `{_show(shape)}` the post-processor {taint}"
+                    if not taint and missing and flush_bad is None:
+                        names = ", ".join(f"`{_mk_stream(shape)[i]!r}` (position {i})" for i in missing)
+                        flush_bad = f"on the {fam} `{_show(shape)}` the post-processor never emits {names}: the item is dropped or still buffered when the stream ends"
+            if taint_bad and flush_bad:
+                break
+    except (_Unsupported, RecursionError) as ex:
+        why = f"symbolic execution of the post-processor `{getattr(pp.func, 'qualname', '?')}` stopped: {ex}"
+        # what was established before stopping is a located, real defect: report it; the rest is not claimed
+        if taint_bad:
+            ctx.ob("R3", "TAINT", where, "postproc yields", False, taint_bad, pp.node)
+        else:
+            ctx.undecided("R3", "TAINT", where, "postproc yields", why, pp.node)
+        if flush_bad:
+            ctx.ob("R3", "TAINT", where, "flush on terminators", False, flush_bad, pp.node)
+        else:
+            ctx.undecided("R3", "TAINT", where, "flush on terminators", why, pp.node)
+        return
+    scope_txt = f"{n_runs} symbolic runs: every statement/block skeleton of the language up to 10 items, {len(_DEEP)} deeper nestings, every item stream up to 4 items ending in `;` or `}}`" + (f" ({n_abort} non-sentence streams on which the post-processor raises were skipped)" if n_abort else "") + (
+        f" (the post-processor branches on the text of words: the combinations of answers were explored up to {_MAX_ALTERNATIVES} per stream and {_ALTERNATIVES_BUDGET} overall, smallest streams first; {n_trunc} streams have more)" if n_trunc else "")
+    ctx.ob("R3", "TAINT", where, "postproc yields", taint_bad is None,
+           taint_bad or f"whitespace aside, the post-processor yields exactly the stream items themselves, each once, in stream order, never glued together ({scope_txt})", pp.node)
+    ctx.ob("R3", "TAINT", where, "flush on terminators", flush_bad is None,
+           flush_bad or ("on the runs whose output could be audited: " if taint_bad else "") + f"when the stream ends with a statement terminator (`;` or `}}`) every item has been emitted: nothing is dropped or left in a buffer ({scope_txt})", pp.node)
 
 
 def r5(ctx, g: Grammar):
